@@ -127,3 +127,13 @@ Definition ratio_divide_spec (n1 d1 n2 d2 : Z) := ratio_result (n1 * d2) (d1 * n
 (* [ratio.comparison], for ratios with positive denominators *)
 Definition ratio_equal_spec (n1 d1 n2 d2 : Z) : bool := (n1 =? n2) && (d1 =? d2).
 Definition ratio_less_spec (n1 d1 n2 d2 : Z) : bool := n1 * d2 <? n2 * d1.
+
+(** * the straight-line kernels the ratio headers are built from, as mathematics (review round) *)
+(* [ratio.ratio] writes num = sgn(N) * sgn(D) * abs(N) / gcd(N, D); sgn of 0 never matters there
+   (abs(N) = 0), so the specification gives it no value *)
+Definition sign_spec (v : Z) : option Z := if v =? 0 then None else Some (Z.sgn v).
+(* |v|, when it is an intmax_t value (abs of the most negative value is undefined, [c.math.abs]) *)
+Definition abs_spec (v : Z) : option Z := if representable (Z.abs v) then Some (Z.abs v) else None.
+(* [numeric.ops.gcd]: the greatest common divisor of |m| and |n|; undefined when |m| or |n| is not representable *)
+Definition gcd_spec (m n : Z) : option Z :=
+  if abs_representable m && abs_representable n then Some (Z.gcd m n) else None.
